@@ -4188,6 +4188,12 @@ class _SubTensorDict(TensorDictBase):
             names=self._maybe_names(),
         )
 
+    def replace(self, *args, **kwargs):
+        # A shallow copy of a sub-tensordict is still a window on the source, and
+        # update() on it writes through to the source tensors: replace() is
+        # out-of-place, so the entries are first gathered in a regular tensordict.
+        return self._to_tensordict_view().replace(*args, **kwargs)
+
     def _select(
         self,
         *keys: NestedKey,
